@@ -13,7 +13,7 @@ keeps the discipline under which syntactic identity is cell identity:
     dependencies of a tracked memory cell matter -- yet the same text still names the same cell
     during one run.
 Graphs are loop free (edges go forward only)."""
-from miasm.expression.expression import ExprInt, ExprMem, ExprLoc, ExprCond, ExprSlice
+from miasm.expression.expression import ExprInt, ExprMem, ExprSlice
 from miasm.ir.ir import AssignBlock, IRBlock
 
 from vf import irgen
